@@ -213,7 +213,12 @@ impl InkList {
         }
 
         let mut sub_list = InkList::new();
-        sub_list.set_initial_origin_names(self.initial_origin_names.borrow().clone());
+        // The sub-range remembers the origins of the list it was taken from (derived from
+        // that list's items), so that an empty range still knows its lists.
+        let mut origin_names = self.get_origin_names();
+        origin_names.sort();
+        origin_names.dedup();
+        sub_list.set_initial_origin_names(origin_names);
 
         for (k, v) in ordered {
             if *v >= min_value && *v <= max_value {
